@@ -127,6 +127,7 @@ class QSpec:
     new_cid_len: int = -1         # -1: same length as the server's CID
     new_cid_prefix: str = ""      # "" | "extend" (new CID = old CID + more bytes) | "truncate" (new CID = a proper prefix of the old one)
     client_new_cid_at: int = -1   # same, issued by the client, server switches
+    c_scid_value: bytes = None    # force the client's source connection ID (two clients of one server picking the same short ID)
     path_swaps: int = 0           # so many 1-RTT datagrams are overtaken by their successor on the path (shown swapped in the capture), see reorder_on_path
     late_hs_ack: bool = False     # after the server's HANDSHAKE_DONE the capture still shows a client datagram Handshake(ACK) + 1-RTT(STREAM) that was in flight (capture near the server)
     crypto_retx: str = ""         # "" | "ch" | "sh" | "both": the ClientHello Initial(s) / the server's Initial+Handshake flight are sent a second time (loss recovery: same CRYPTO offsets, new packet numbers)
@@ -217,7 +218,7 @@ def build_qconn(spec: QSpec, rng) -> QConn:
     if 0 < spec.odcid_len < 4 and (spec.s_scid_len < spec.odcid_len or spec.new_cid_prefix == "truncate" or 0 <= spec.new_cid_len < spec.odcid_len):
         spec.odcid_len = 8          # sender validity (see random_qspec): a 1..3-byte original DCID only together with server connection IDs at least as long
     odcid = rb(spec.odcid_len)
-    c_scid = rb(spec.c_scid_len)
+    c_scid = rb(spec.c_scid_len) if spec.c_scid_value is None else bytes(spec.c_scid_value)
     s_scid = rb(spec.s_scid_len)
     sec = {k: rb(hl) for k in ("chs", "shs", "cap", "sap")}
     keylog = [f"CLIENT_HANDSHAKE_TRAFFIC_SECRET {cr.hex()} {sec['chs'].hex()}",
